@@ -62,6 +62,11 @@ type confRes struct {
 	S6  *confSrv `json:"s6,omitempty"`
 }
 
+// confFileName: the name the i-th document of a batch is stored under.
+func confFileName(i int) string {
+	return []string{"config.yml", "config.yml", "coredhcp.yaml", "dhcp.conf", "config", "config.yml.example", "site.json", "lab.toml", "old.ini", "CONFIG.JSON", "my.config.file", "server.env", "x.properties"}[i%13]
+}
+
 func configChild() {
 	raw, _ := io.ReadAll(os.Stdin)
 	var docs []string
@@ -76,9 +81,12 @@ func configChild() {
 	for i := first; i < len(docs); i++ {
 		fmt.Fprintf(out, "{\"begin\":%d}\n", i)
 		out.Flush()
-		path := filepath.Join(dir, "config.yml")
+		// the document is YAML whatever the file is called
+		name := confFileName(i)
+		path := filepath.Join(dir, name)
 		os.WriteFile(path, []byte(docs[i]), 0o644)
 		c, err := config.Load(path)
+		os.Remove(path)
 		r := confRes{I: i}
 		if err != nil {
 			r.Err = err.Error()
@@ -224,7 +232,7 @@ func (configEngine) Run(ctx *fw.Ctx, cs any) {
 			}
 		case "must-load":
 			if r.Err != "" {
-				ctx.Viol("C18", "rejected-valid", "this configuration is valid but loading failed with %q:\n%s", r.Err, clipStr(d.YAML, 800))
+				ctx.Viol("C18", "rejected-valid", "this configuration (stored as %s) is valid but loading failed with %q:\n%s", confFileName(r.I), r.Err, clipStr(d.YAML, 800))
 				continue
 			}
 			for _, pr := range []struct {
